@@ -26,3 +26,85 @@ ASSUMPTIONS = [
 ]
 
 CLAUSES = HI.clauses()
+
+
+# =====================================================================================
+# oracle: ill-matched inputs of combine / stacking (wave 6, G15): either refused, or the result is coherent
+# (the unchanged library refuses them with ValueError; a change that starts accepting them must keep derived data in step)
+# =====================================================================================
+def gen_mismatch(rng, n):
+    for i in range(n):
+        yield {"what": ["combine_polygons", "stack_polygon_point", "stack_segment_pair", "stack_tangent_pair", "combine_equal"][i % 5],
+               "k": rng.choice([3, 4, 5]), "mult": rng.choice([2, 3]), "seed": rng.randrange(10 ** 9), "order": rng.random() < 0.5}
+
+
+def _coherent(obj, kind):
+    """None, or why the object's derived data is not what a fresh object with the same primary data has"""
+    pd = np.asarray(obj.proj_data)
+    if obj.aux_data is None:
+        return None
+    ad = np.asarray(obj.aux_data)
+    u, au = obj.unit_ndims, obj.aux_ndims
+    if pd.shape[:pd.ndim - u] != ad.shape[:ad.ndim - au]:
+        return {"why": "derived data has another composite shape than the primary data", "proj": list(pd.shape), "aux": list(ad.shape)}
+    with np.errstate(all="ignore"):
+        fr = type(obj)(np.array(pd, copy=True))
+    if not O.aux_proj_eq(kind, ad, fr.aux_data, 1e-6):
+        return {"why": "stored derived data differs from the recomputation from the primary data", "proj": list(pd.shape)}
+    return None
+
+
+def run_mismatch(inp):
+    g = np.random.default_rng(inp["seed"])
+    k, what = inp["k"], inp["what"]
+    def poly(nv, cnt=None):
+        ang = np.sort(g.uniform(0, 2 * np.pi, (cnt or 1, nv)), axis=-1) + np.linspace(0, 1e-3, nv)
+        r = g.uniform(0.3, 0.8, (cnt or 1, nv))
+        kk = np.stack([r * np.cos(ang), r * np.sin(ang)], axis=-1)
+        return H.Polygon(H.Point(kk if cnt else kk[0], model="klein"))
+    try:
+        if what in ("combine_polygons", "combine_equal"):
+            a = poly(k, 2)
+            b = poly(k * inp["mult"] if what == "combine_polygons" else k, g.integers(1, 3))
+            objs = [a, b] if inp["order"] else [b, a]
+            res, kind = H.Polygon.combine(objs), "polygon"
+        elif what == "stack_polygon_point":
+            a = poly(k)
+            b = H.Point(np.array(poly(k).proj_data))
+            res, kind = H.Polygon([a, b] if inp["order"] else [b, a, a]), "polygon"
+        elif what == "stack_segment_pair":
+            mk = lambda: g.uniform(-0.5, 0.5, (2, 2))
+            s = lambda: H.Segment(H.Point(mk(), model="klein"))
+            pp = H.PointPair(H.Point(mk(), model="klein"))
+            res, kind = H.Segment([s(), pp, s()] if inp["order"] else [pp, s()]), "segment"
+        else:
+            p, q = H.Point(g.uniform(-0.5, 0.5, 2), model="klein"), H.Point(g.uniform(-0.5, 0.5, 2), model="klein")
+            tv = p.unit_tangent_towards(q)
+            pp = H.PointPair(np.array(tv.proj_data))
+            res, kind = H.TangentVector([tv, pp] if inp["order"] else [pp, tv]), "tangent"
+    except Exception as e:
+        return {"refused": type(e).__name__}
+    return {"refused": None, "incoherent": _coherent(res, kind), "equal_case": what == "combine_equal"}
+
+
+def judge_mismatch(inp, obs, lr):
+    tags = {"what": inp["what"], "error_path": True}
+    if "exc" in obs:
+        return {"expected": "refusal or a coherent object", "observed": obs, "tags": dict(tags, exc=obs["exc"])}
+    if obs["refused"]:
+        if inp["what"] == "combine_equal":
+            return {"expected": "polygons with equal vertex counts combine", "observed": obs, "tags": tags}
+        return None
+    if obs["incoherent"]:
+        return {"expected": "an ill-matched combine / stack is either refused or yields an object whose derived data matches its primary data",
+                "observed": obs["incoherent"], "tags": tags}
+    return None
+
+
+CLAUSES = CLAUSES + [
+    Clause("mismatch_oracle", "oracle", gen_mismatch, run_mismatch, judge_mismatch, site="projective.ProjectiveObject.combine / _construct_from_object (ill-matched inputs)",
+           budget={"quick": 50, "thorough": 1000},
+           what="combine of polygons with different vertex counts (k and a multiple of k), stacking lists that mix objects with and without derived data "
+                "(Polygon+Point, Segment+PointPair, TangentVector+PointPair, both orders): refused, or the result's derived data has the composite shape "
+                "of, and equals the recomputation from, its primary data; equal vertex counts must combine"),
+]
